@@ -45,7 +45,8 @@ def schema_case(names, docid, L):
             if q[0] not in seen:
                 seen.add(q[0])
                 params.append(q)
-    params += [("u1", U), ("u2", "int"), ("u3", "int")]
+    # (schemas with three or more symbolic rule arguments: every permutation runs in one harness; the leaf u1 is then an int)
+    params += [("u1", U if len(params) < 3 else "int"), ("u2", "int"), ("u3", "int")]
     pn = ", ".join(p[0] for p in params)
     terms = ", ".join(f"({RULES[n][0]}, {RULES[n][1]})" for n in names)
     body = f"""
@@ -83,7 +84,8 @@ for perm in itertools.permutations(range(n)):
                 ok = ok and note('report names every failing path', repr(f.path) in s)
 return ok
 """
-    return mk_case(f"c06.schema.{'+'.join(names) or 'empty'}.{docid}", params, body, pre=[f"BU({L}, {pn})"], stubs=["sym_repr"])
+    return mk_case(f"c06.schema.{'+'.join(names) or 'empty'}.{docid}", params, body, pre=[f"BU({L}, {pn})"], stubs=["sym_repr"],
+                   budget=(720 if len(names) >= 4 else None))   # 24 permutations validated per path
 
 
 QUICK = [
